@@ -5,6 +5,7 @@ import (
 	"go/token"
 	"go/types"
 	"sort"
+	"strconv"
 	"strings"
 
 	"golang.org/x/tools/go/ssa"
@@ -57,7 +58,11 @@ func runC14(e *Env) {
 	ruleNoMatchRejects(e, "C14.parse", e.Fn("C14.parse", "sem", "unmarshalText")) // … and an invalid text is an error
 	// "invalid" is the SemVer grammar: a helper that refuses a valid text (1.0.0-alpha+001) fails where it must not
 	e.As(map[string]string{"C03.lang": "C14.lang", "C03.num": "C14.lang", "C03.valid": "C14.lang"}, func() { ruleC03Lang(e) })
-	e.S.Floor("C14.lang", 2)
+	// … and the compared fields are the captures of that pattern laid out as the grammar lays them out: nothing matched
+	// lies outside the five captures and the literals between them (a group that swallowed "0." in front of the
+	// pre-release would change what is compared without changing the language)
+	e.skeleton("C14.lang", "sem", "pattern", "^<1>.<2>.<3>[-<4>][+<5>]$")
+	e.S.Floor("C14.lang", 3)
 }
 
 // ---- C14.range
@@ -362,7 +367,11 @@ func ruleSuffixOf(e *Env, rule string, cpr, suf *ssa.Function, sufCall *ssa.Call
 	defer func() {
 		// digit counts of the remainders order the numbers only if the remainders are whole digit runs
 		if numericByLength && rule == "C06.numorder" {
-			ruleDigitRunStart(e, rule, cpr, sufCall)
+			ruleDigitRunStart(e, rule, cpr, sufCall, false)
+		}
+		// antisymmetry: where the remainders are cut is decided by what the two operands share (C14.suffix)
+		if rule == "C14.suffix" {
+			ruleDigitRunStart(e, rule, cpr, sufCall, true)
 		}
 	}()
 	for _, lf := range leaves {
@@ -429,10 +438,17 @@ func ruleSuffixOf(e *Env, rule string, cpr, suf *ssa.Function, sufCall *ssa.Call
 // operands are cut satisfies J == 0 or s[J-1] is not a digit on every path to the call. Recognised: J is the variable
 // of a rewind loop entered from the scan index, stepping J-1, every exit of which is the failing edge of `J > 0` or
 // of one half of the digit test on s[J-1] ('0' <= c, c <= '9').
-func ruleDigitRunStart(e *Env, rule string, scan *ssa.Function, call *ssa.Call) {
+//
+// symOnly (C14): the weaker, order-free reading — the cut index is the first differing position, possibly moved back
+// by a loop that looks at nothing but the index and the byte in front of it (the common prefix): a cut that depends on
+// a byte at or behind the difference differs between Compare(a,b) and Compare(b,a).
+func ruleDigitRunStart(e *Env, rule string, scan *ssa.Function, call *ssa.Call, symOnly bool) {
 	site := flow.FnName(scan)
-	const construct = "digit run start"
-	const witness = "1.0.0-11 vs 1.0.0-101"
+	construct := "digit run start"
+	witness := "1.0.0-11 vs 1.0.0-101"
+	if symOnly {
+		construct, witness = "cut", "1.0.0-x0 vs 1.0.0-x1"
+	}
 	bad := func(msg string) { e.S.Bad(rule, site, construct, msg, e.posOf(call), witness) }
 	if call == nil || len(call.Call.Args) != 2 {
 		return
@@ -458,6 +474,93 @@ func ruleDigitRunStart(e *Env, rule string, scan *ssa.Function, call *ssa.Call) 
 	for _, a := range call.Call.Args {
 		subjects[a.(*ssa.Slice).X] = true
 	}
+	// the scan index: the position at which the two operands are compared byte by byte
+	isScanIndex := func(v ssa.Value) bool {
+		for _, b := range scan.Blocks {
+			iff, ok := b.Instrs[len(b.Instrs)-1].(*ssa.If)
+			if !ok {
+				continue
+			}
+			cmp, ok := iff.Cond.(*ssa.BinOp)
+			if !ok || (cmp.Op != token.NEQ && cmp.Op != token.EQL) {
+				continue
+			}
+			n := 0
+			for _, side := range []ssa.Value{cmp.X, cmp.Y} {
+				switch x := side.(type) {
+				case *ssa.Index:
+					if subjects[x.X] && x.Index == v {
+						n++
+					}
+				case *ssa.UnOp:
+					if ia, ok := x.X.(*ssa.IndexAddr); ok && x.Op == token.MUL && subjects[ia.X] && ia.Index == v {
+						n++
+					}
+				}
+			}
+			if n == 2 {
+				return true
+			}
+		}
+		return false
+	}
+	// the cut computed by a helper of the module from (operand, first differing position): read the helper's loop
+	entry := isScanIndex
+	loopFn := scan
+	if hc, ok := cut.(*ssa.Call); ok {
+		if g := e.C.StaticCallee(&hc.Call); g != nil && flow.InRepo(g) && len(hc.Call.Args) == len(g.Params) {
+			var subjP, idxP *ssa.Parameter
+			for i, a := range hc.Call.Args {
+				switch {
+				case subjects[a]:
+					subjP = g.Params[i]
+				case isScanIndex(a):
+					idxP = g.Params[i]
+				}
+			}
+			var res ssa.Value
+			nres := 0
+			for _, r := range flow.Returns(g) {
+				if len(r.Results) == 1 && (res == nil || res == r.Results[0]) {
+					res = r.Results[0]
+				} else {
+					nres = 2
+				}
+			}
+			if subjP != nil && idxP != nil && res != nil && nres == 0 {
+				cut, loopFn = res, g
+				subjects = map[ssa.Value]bool{subjP: true}
+				entry = func(v ssa.Value) bool { return v == ssa.Value(idxP) }
+			}
+		}
+	}
+	// the cut as len(strings.TrimRight(x[:i], digits)): the common prefix without its trailing digit run
+	if inner, isLen := flow.IsLenOf(cut); isLen {
+		if tc, ok := inner.(*ssa.Call); ok && len(tc.Call.Args) == 2 {
+			name := calleeName(&tc.Call)
+			sl, isSl := tc.Call.Args[0].(*ssa.Slice)
+			set, isSet := flow.ConstString(tc.Call.Args[1])
+			if (name == "strings.TrimRight" || name == "bytes.TrimRight") && isSl && isSet && subjects[sl.X] && sl.Low == nil && sl.High != nil && entry(sl.High) {
+				digits := map[byte]bool{}
+				only := true
+				for i := 0; i < len(set); i++ {
+					digits[set[i]] = true
+					if set[i] < '0' || set[i] > '9' {
+						only = false
+					}
+				}
+				switch {
+				case symOnly:
+					e.S.Ok(rule, site, construct, "the remainders are cut where the common prefix's trailing run of "+strconv.Quote(set)+" starts: the same cut for both argument orders", e.posOf(call))
+				case only && len(digits) == 10:
+					e.S.Ok(rule, site, construct, "the remainders are cut at len(TrimRight(common prefix, digits)): the compared digit counts are those of whole digit runs", e.posOf(call))
+				default:
+					bad("the common prefix is trimmed of " + strconv.Quote(set) + ", not of exactly the ten digits: the remainders do not start at the digit run's first digit")
+				}
+				return
+			}
+		}
+	}
 	ph, ok := cut.(*ssa.Phi)
 	var back *ssa.BinOp
 	if ok {
@@ -467,6 +570,26 @@ func ruleDigitRunStart(e *Env, rule string, scan *ssa.Function, call *ssa.Call) 
 					back = bo
 				}
 			}
+		}
+	}
+	if symOnly && back == nil {
+		if entry(cut) {
+			e.S.Ok(rule, site, construct, "the remainders are cut at the first differing position", e.posOf(call))
+		} else {
+			bad("the index at which the remainders are cut is neither the first differing position nor that position moved back over the common prefix: a cut that depends on a byte of one operand at or behind the difference is not the same for Compare(a,b) and Compare(b,a)")
+		}
+		return
+	}
+	if back != nil {
+		entryOK := false
+		for _, ed := range ph.Edges {
+			if ed != ssa.Value(back) && entry(ed) {
+				entryOK = true
+			}
+		}
+		if !entryOK {
+			bad("the loop that moves the cut back does not start at the first differing position")
+			return
 		}
 	}
 	if back == nil {
@@ -492,7 +615,7 @@ func ruleDigitRunStart(e *Env, rule string, scan *ssa.Function, call *ssa.Call) 
 		}
 		return false
 	}
-	for _, b := range scan.Blocks {
+	for _, b := range loopFn.Blocks {
 		if b != head && head.Dominates(b) && reach(b, map[*ssa.BasicBlock]bool{}) {
 			inLoop[b] = true
 		}
@@ -517,7 +640,36 @@ func ruleDigitRunStart(e *Env, rule string, scan *ssa.Function, call *ssa.Call) 
 		return false
 	}
 	// exitOK: leaving the loop on this edge implies J == 0 or s[J-1] is not a digit
-	exitOK := func(cond ssa.Value, onTrue bool) bool {
+	var exitOK func(cond ssa.Value, onTrue bool) bool
+	exitOK = func(cond ssa.Value, onTrue bool) bool {
+		if un, ok := cond.(*ssa.UnOp); ok && un.Op == token.NOT {
+			return exitOK(un.X, !onTrue)
+		}
+		// a predicate of the module on the byte in front of the cut: leaving on its false edge is fine if it holds for
+		// every digit (evaluated on '0'..'9')
+		if pc, ok := cond.(*ssa.Call); ok && len(pc.Call.Args) == 1 && prevByte(pc.Call.Args[0]) {
+			g := e.C.StaticCallee(&pc.Call)
+			if g == nil || !flow.InRepo(g) {
+				return false
+			}
+			if symOnly {
+				return true
+			}
+			if onTrue {
+				return false
+			}
+			for c := int64('0'); c <= '9'; c++ {
+				ev := &pred.Evaluator{Prog: e.P.SSA, GlobalInit: e.globalTables(), Oracle: noOracle{}}
+				out, err := ev.Eval(g, []pred.Val{pred.Const{V: constantInt(c)}})
+				if err != nil {
+					return false
+				}
+				if v, ok := boolOf(out.Ret); !ok || !v {
+					return false
+				}
+			}
+			return true
+		}
 		bo, ok := cond.(*ssa.BinOp)
 		if !ok {
 			return false
@@ -557,6 +709,9 @@ func ruleDigitRunStart(e *Env, rule string, scan *ssa.Function, call *ssa.Call) 
 			}
 		}
 		// now: the edge is taken when `x op k` is false
+		if symOnly && (x == ssa.Value(ph) || prevByte(x)) {
+			return true
+		}
 		switch {
 		case x == ssa.Value(ph): // J > 0, J >= 1, J != 0 fail ⇒ J <= 0
 			return op == token.GTR && k == 0 || op == token.GEQ && k == 1 || op == token.NEQ && k == 0
@@ -577,6 +732,10 @@ func ruleDigitRunStart(e *Env, rule string, scan *ssa.Function, call *ssa.Call) 
 			}
 			exits++
 			if !exitOK(iff.Cond, k == 0) {
+				if symOnly {
+					bad("the loop that moves the cut back is left on a test (" + iff.Cond.String() + ") of something other than the index and the byte in front of it: the cut is not the same for both argument orders")
+					return
+				}
 				bad("the rewind loop in front of the remainder comparison can be left while the byte in front of the cut is still a digit (exit on " + iff.Cond.String() + "): digits common to both numbers are dropped before the digit counts are compared")
 				return
 			}
@@ -584,6 +743,10 @@ func ruleDigitRunStart(e *Env, rule string, scan *ssa.Function, call *ssa.Call) 
 	}
 	if exits == 0 {
 		e.S.Unk(rule, site, construct, "rewind loop without a recognisable exit", e.posOf(call))
+		return
+	}
+	if symOnly {
+		e.S.Ok(rule, site, construct, fmt.Sprintf("the remainders are cut at the first differing position moved back by a loop that reads only the index and the byte in front of it (%d exits): the same cut for both argument orders", exits), e.posOf(call))
 		return
 	}
 	// the loop is entered with the scan index (the first differing byte)
@@ -650,6 +813,11 @@ func ruleLatest(e *Env, rule string) {
 		construct := fmt.Sprintf("Compare=%d", c)
 		v, w := symStruct(verT, "v"), symStruct(verT, "ver")
 		sums := map[string]pred.Summary{cmp.String(): func(ev *pred.Evaluator, args []pred.Val) (pred.Val, error) {
+			if args[0] == pred.Val(w) && args[1] == pred.Val(v) {
+				// the mirrored comparison: its sign is the opposite one (the antisymmetry this property asserts of
+				// Compare, decided by the other C14 rules)
+				return pred.Const{V: constantInt(int64(-c))}, nil
+			}
 			if args[0] != pred.Val(v) || args[1] != pred.Val(w) {
 				return nil, &pred.Undecided{Reason: "Latest compares something other than receiver.Compare(argument)"}
 			}
